@@ -59,6 +59,9 @@ Check(t) ==
          ELSE IF \E i \in DOMAIN t.norm : In(e, [val |-> t.norm[i].q.val, w |-> 1])
                                           /\ \E j \in DOMAIN t.norm[i].out : t.norm[i].out[j] > 256 + Tol \/ t.norm[i].out[j] < -256 - Tol
               THEN <<"normalization-outside-unit-box", DepBox(e), Len(rows)>>          \* (the layer is built from the estimated box)
+         \* whole-number positions handed over as integer tensors: the box of the primitive is still tight
+         ELSE IF "boxint_exc" \in DOMAIN t /\ t.boxint_exc \notin {"", "none"} THEN <<"bounding-box-failed(integer positions):" \o t.boxint_exc, "", Len(rows)>>
+         ELSE IF "boxint" \in DOMAIN t /\ t.boxint # <<>> /\ HasBox(e) /\ (~Encloses(e, rows[1], t.boxint) \/ ~Tight(e, rows[1], t.boxint)) THEN <<"bounding-box(integer positions)", "", Len(rows)>>
          \* the user-set box of the first operand (a product) after the box of the intersection was computed: it still encloses the operand
          ELSE IF "pbox_hist_exc" \in DOMAIN t /\ t.pbox_hist_exc \notin {"", "none"} THEN <<"bounding-box-history-failed:" \o t.pbox_hist_exc, "", Len(rows)>>
          ELSE IF "pbox_hist" \in DOMAIN t /\ t.pbox_hist # <<>> /\ ~Encloses(e.l, rows[1], t.pbox_hist) THEN <<"user-set-box-of-an-operand-changed-by-the-intersection", "", Len(rows)>>
